@@ -24,11 +24,15 @@
      41 modify Do, ONE instance over several events (its buffers are reused: long then short values)
                           case (skipEmpty #target (op ...) (tree ...))  obs ((#seg ...) ((#seg ...) ...) (out ...))
                           every (tree, out) pair is judged as a case of 40; the first verdict that is not Agree is the answer
+     42..49 rename, move, flatten, json_encode, json_decode, convert_log_level, set_time / add_host / add_file_name /
+            convert_date / discard / debug (48), parse_es / cardinality over event sequences (49): formats at the
+            head of Model/Actions/ExtraEntry.v
    No proofs here.
    >>> which >= 50 (processor-level time-out delivery) is added by the coordinator in c13_entry; the
    >>> default branch below answers BadCase. *)
 From Verif Require Import Base.Sx Base.GoSem Base.Json Model.Decoders.Common
-  Model.Actions.Tree Model.Actions.Subst Model.Actions.ConvertUtf8 Model.Actions.HashNorm Model.Actions.Plugins.
+  Model.Actions.Tree Model.Actions.Subst Model.Actions.ConvertUtf8 Model.Actions.HashNorm Model.Actions.Plugins
+  Model.Actions.ExtraEntry.
 
 Definition is_panic_obs (o : sx) : bool := match o with SL (SZ 2 :: _) => true | _ => false end.
 
@@ -256,6 +260,9 @@ Definition c13_actions_entry (which : Z) (case obs : sx) : verdict :=
   | 39 => hash_run case obs
   | 40 => modify_run case obs
   | 41 => modify_seq_run case obs
+  (* 42..49: rename, move, flatten, json_encode, json_decode, convert_log_level, one-step plugins, sequences
+     (Model/Actions/ExtraEntry.v) *)
+  | 42 | 43 | 44 | 45 | 46 | 47 | 48 | 49 => c13_extra_entry which case obs
   (* >>> coordinator: which >= 50 = processor-level time-out delivery goes here <<< *)
   | _ => BadCase
   end.
